@@ -1031,6 +1031,15 @@ class Enum(Generic, PrimitiveType):
     )
 
   @classmethod
+  def from_json(
+      cls, json_value: typing.Dict[str, typing.Any], **kwargs: typing.Any
+  ) -> 'Enum':
+    # NOTE: `default` is a required argument of `Enum.__init__`, while it is
+    # omitted by `to_json` when the Enum has no default value.
+    json_value.setdefault('default', MISSING_VALUE)
+    return super().from_json(json_value, **kwargs)
+
+  @classmethod
   def with_type_args(cls, type_args: typing.Tuple[typing.Any, ...]) -> 'Enum':
     if len(type_args) < 2:
       raise TypeError(
